@@ -273,7 +273,17 @@ def run(replay=None):
             rejected.append((name, plans[i - 1]))
         if rej:
             V.drift(f"{len(rej)} recorded trace(s) of config {name} are not behaviours of Solver.tla, e.g. plan {plans[rej[0]-1]}")
+    # 4. the repository's own tests under the tracer (shape mode): every solver instance the suite creates
+    from . import solver_suite_tracer as SS
+    suite = SS.run(C, wd)
+    ntraces += suite["accepted"]
+    states += suite["states"]; trans += suite["transitions"]
+    if suite.get("nrejected"):
+        V.drift(f"{suite['nrejected']} solver instance histories recorded while running the repository's tests are not behaviours "
+                f"of Solver.tla, e.g. {json.dumps(suite['rejected'][0])[:300]}")
     V.cov.update({
+        "testsuite_solver_instances_validated": suite["accepted"], "testsuite_solver_configs": suite["configs"],
+        "testsuite_solver_events": suite["events"], "testsuite_unsupported_instances": suite["unsupported"],
         "states": states, "transitions": trans, "traces_validated_against_impl": ntraces,
         "evaluations": len(jobs), "distinct_nontrivial": len(nontrivial),
         "rule": "all histories of 2 calls over every token string of length <= 3 of a per-configuration alphabet (TLC, exhaustive; "
